@@ -36,7 +36,8 @@ ASSUMPTIONS = [
 FLOORS = {'numeric_spelling_cases': 600, 'text_spelling_cases': 100,
           'arithmetic_cases': 400, 'name_lookup_cases': 100,
           'user_function_cases': 10, 'numpy_spellings': 100,
-          'formula_cases': 120, 'keyword_spelling_cases': 300}
+          'formula_cases': 120, 'keyword_spelling_cases': 300,
+          'empty_text_cases': 20, 'host_decimal_context_cases': 100}
 ANCHOR_FUNCS = {
     'xlcalculator/xlfunctions/xl.py': ['validate_args.<locals>.validate',
                                        '_validate', 'register',
@@ -388,6 +389,59 @@ def run(ctx):
                                   'right': repr(b), 'observed': got,
                                   'reference': want[1]}, kf=kf,
                    group=f'arith-cells:{sym}:{an}:{bn}')
+
+    # ---- C3. the empty text is a text (not numeric): in a cell or as a literal ----
+    if sh == 0:
+        forms = {'=A1+1': 'err', '=A1*2': 'err', '=5-A1': 'err',
+                 '=-A1': 'err', '=ABS(A1)': 'err', '=POWER(2,A1)': 'err',
+                 '=A1&"x"': ('text', 'x'), '=LEN(A1)': ('num', 0.0),
+                 '=""+1': 'err', '=ABS("")': 'err', '=""&"x"': ('text', 'x')}
+        for holder in ('', T.Text('')):
+            outs = subject.eval_batch(list(forms), {'A1': 0},
+                                      post_set={'Sheet1!A1': holder})
+            for (text, want), got in zip(forms.items(), outs):
+                ctx.event('arithmetic_cases')
+                ctx.event('empty_text_cases')
+                ctx.case(('empty-text', text, type(holder).__name__))
+                ok = (got == ('value', ('err', '#VALUE!'))) if want == 'err' \
+                    else got == ('value', want)
+                if not ok:
+                    report(f'{text} with A1 holding the empty text '
+                           f'({holder!r}) -> {got}, expected '
+                           f'{"#VALUE!" if want == "err" else want}',
+                           {'formula': text, 'A1': repr(holder),
+                            'observed': got},
+                           group=f'empty-text:{text}')
+
+    # ---- C4. numeric text is read the same whatever decimal context the calling
+    # application has set for its own arithmetic -------------------------------
+    if sh in (0, 1):
+        import decimal
+        texts_ = ['3.14159', '2.718281828', '1234567.891', '2.5e-3',
+                  '-0.000123456', '12', '1e3', '0.1']
+        for t in texts_:
+            for host in (decimal.Context(prec=4),
+                         decimal.Context(prec=3,
+                                         rounding=decimal.ROUND_DOWN),
+                         decimal.Context(prec=6, traps=[decimal.Inexact])):
+                for fname, args, want in (
+                        ('OP_ADD', (t, 1), float(t) + 1),
+                        ('OP_MUL', (T.Text(t), 2), float(t) * 2),
+                        ('ABS', (t,), abs(float(t))),
+                        ('ROUND', (1.23456, '3'), 1.235),
+                        ('POWER', (t, 1), float(t))):
+                    with decimal.localcontext(host):
+                        got = monitors.call_outcome(F[fname], *args)
+                    ctx.event('host_decimal_context_cases')
+                    ctx.case(('host-context', fname, t, host.prec))
+                    if not same(got, ('value', ('num', want))):
+                        report(f'{fname}{args!r} under the caller\'s decimal '
+                               f'context (prec={host.prec}) -> {got}, '
+                               f'expected {want}',
+                               {'function': fname,
+                                'args': [repr(a) for a in args],
+                                'observed': got, 'canonical': want},
+                               group=f'host-context:{fname}:{got[0]}')
 
     # ---- C2. sign chains: -x, --x, ---x coerce like any arithmetic -----------------
     utexts, umeta, uinputs = [], [], {}
